@@ -8,10 +8,10 @@ from sa.poly import RF, fn_atom
 from sa.selftest import Edit, Variant
 from sa.sym import ClassRef, Cond, Ext, Interp, PyCallable, Rec, SymStr, Undecided, Unknown, closure_of, explore, method_of, to_rf, simplify_num
 
-from sa.texts import T as _T
+from sa.texts import T as _TX
 
-EXPLANATION = _T["C12"]["explanation"] + " Not decided: " + _T["C12"]["not_decided"] + "."
-ASSUMPTIONS = _T["C12"]["assumptions"]
+EXPLANATION = _TX["C12"]["explanation"] + " Not decided: " + _TX["C12"]["not_decided"] + "."
+ASSUMPTIONS = _TX["C12"]["assumptions"]
 P = "C12"
 S = RF.sym
 
